@@ -280,4 +280,200 @@ Section CtxProofs.
           eapply IH; eauto.
     Qed.
   End Loop.
+
+  (* ---------- reveal_output ---------- *)
+  Section Reveal.
+    Variables (cg : list node) (coo : Z).
+    Variable ins0 : list rv.
+    Variables (base p0 : Z) (v : R).
+
+    (* the nodes from position [base] on: none is a Call, and whatever party p0 sends is the value v *)
+    Definition sendinv (out : list node) (env : list rv) : Prop :=
+      forall k nd, znth out k = Ok nd -> base <= k ->
+        n_op nd <> OCall /\ forall q, In (ASend p0 q) (n_annots nd) -> znth env k = Ok (L v).
+
+    Lemma sendinv_init out env : zlen out <= base -> sendinv out env.
+    Proof. intros Hb k nd Hk Hbk. apply znth_range in Hk. lia. Qed.
+
+    Definition RI (out0 : list node) (env0 : list rv) (ins : list rv) (out : list node) (env : list rv) : Prop :=
+      cevals cg coo ins0 out env ins /\ sendinv out env /\ ext out0 out /\ mono env0 env.
+
+    Lemma RI_emit out0 env0 o deps an out out' id env ins vs w :
+      RI out0 env0 ins out env ->
+      emit o deps an out = Ok (out', id) -> is_input o = false ->
+      mapM (fun d => znth env d) deps = Ok vs -> cnode cg coo (zlen env) o vs = Some w ->
+      o <> OCall -> (forall q, In (ASend p0 q) an -> w = L v) ->
+      RI out0 env0 ins out' (env ++ [w]) /\ znth (env ++ [w]) id = Ok w /\
+      (exists nd, znth out' id = Ok nd /\ n_annots nd = an) /\ id = zlen out /\ zlen out' = zlen out + 1 /\
+      (exists ts t, mapM (out_ty out) deps = Ok ts /\ infer o ts = Ok t /\ out_ty out' id = Ok t) /\ ext out out'.
+    Proof.
+      intros (E & SI & X & M) H Hi Hm Hv Hno Han.
+      destruct (emit_cevals R r0 radd rmul rsub atom matom catom one lin bil nlin cg coo _ _ _ _ _ _ _ _ _ _ _ H E Hi Hm Hv) as [Ev F].
+      destruct (emit_ty _ _ _ _ _ _ H) as (ts & t & Hts & Hit & Hty & X').
+      destruct (emit_spec _ _ _ _ _ _ H) as (ts' & t' & _ & _ & -> & ->).
+      pose proof (cevals_length R r0 radd rmul rsub atom matom catom one lin bil nlin cg coo _ _ _ _ E) as Le.
+      split; [|split; [exact F|split; [|split; [reflexivity|split; [now rewrite zlen_app, zlen_one|split; [eauto 6|exact X']]]]]].
+      - split; [exact Ev|]. split; [|split; [eauto using ext_trans | intros d y Hd; apply znth_app_l; auto]].
+        intros k nd Hk Hb. pose proof (znth_range _ _ _ Hk) as Hr. rewrite zlen_app, zlen_one in Hr.
+        destruct (Z.eq_dec k (zlen out)) as [->|Hne].
+        + rewrite znth_last in Hk. inversion Hk; subst nd. cbn [n_op n_annots]. split; [exact Hno|].
+          intros q Hq. rewrite <- Le. rewrite znth_last. f_equal. eauto.
+        + apply znth_inj_app in Hk; [|lia]. destruct (SI _ _ Hk Hb) as [A B]. split; [exact A|].
+          intros q Hq. apply znth_app_l. eauto.
+      - eexists. split; [apply znth_last | reflexivity].
+    Qed.
+
+    Lemma sum3_leaf t x y z out :
+      is_leaf t = true ->
+      sum_shares t [x; y; z] out = (let* (o1, r1) := emit OAdd [x; y] [] out in emit OAdd [r1; z] [] o1).
+    Proof. destruct t; try discriminate; reflexivity. Qed.
+
+    Lemma listed_In q l : existsb (iostatus_eqb (IOParty q)) (map IOParty l) = true <-> In q l.
+    Proof.
+      rewrite existsb_exists. split.
+      - intros (s & Hs & He). apply in_map_iff in Hs as (p & <- & Hp). cbn in He. apply Z.eqb_eq in He. now subst.
+      - intros Hq. exists (IOParty q). split; [now apply in_map | cbn; apply Z.eqb_refl].
+    Qed.
+
+    (* one step of the forwarding loop *)
+    Lemma forward_step out0 env0 ins outs q out env sn out' sn' :
+      RI out0 env0 ins out env -> znth env sn = Ok (L v) ->
+      (if existsb (iostatus_eqb (IOParty q)) (map IOParty outs)
+       then emit ONOP [sn] [ASend p0 q] out else Ok (out, sn)) = Ok (out', sn') ->
+      exists env', RI out0 env0 ins out' env' /\ znth env' sn' = Ok (L v) /\ ext out out' /\
+        (In q outs -> exists k nd, znth out' k = Ok nd /\ zlen out <= k /\ In (ASend p0 q) (n_annots nd)).
+    Proof.
+      intros HR Hsn H. destruct (existsb _ _) eqn:Hc.
+      - destruct (RI_emit _ _ _ _ _ _ _ _ _ _ [L v] (L v) HR H eq_refl) as (HR' & F & (nd & Hnd & Han) & Hid & _ & _ & X).
+        + cbn [mapM]. rewrite Hsn. reflexivity.
+        + reflexivity.
+        + discriminate.
+        + reflexivity.
+        + exists (env ++ [L v]). split; [exact HR'|]. split; [exact F|]. split; [exact X|].
+          intros _. exists sn', nd. split; [exact Hnd|]. split; [lia|]. rewrite Han. now left.
+      - inversion H; subst. exists env. split; [exact HR|]. split; [exact Hsn|]. split; [apply ext_refl|].
+        intros Hq. apply listed_In in Hq. congruence.
+    Qed.
+
+    Lemma ext_annot a b k nd x : ext a b -> znth a k = Ok nd -> In x (n_annots nd) ->
+      exists nd', znth b k = Ok nd' /\ In x (n_annots nd').
+    Proof. intros [_ X] Hk Hx. destruct (X _ _ Hk) as (nd' & Hk' & (_ & _ & _ & Hincl)). eauto. Qed.
+
+    Lemma reveal_sem call rest out out' id env ins a b c T :
+      reveal_output call (map IOParty (p0 :: rest)) out = Ok (out', id) -> cevals cg coo ins0 out env ins ->
+      znth env call = Ok (T3 a b c) -> out_ty out call = Ok T -> share_ty T ->
+      base = zlen out -> v = radd (radd a b) c -> 0 <= p0 < 3 ->
+      exists env', cevals cg coo ins0 out' env' ins /\ mono env env' /\ ext out out' /\
+        znth env' id = Ok (L v) /\ sendinv out' env' /\
+        (forall q, In q rest -> q <> p0 -> 0 <= q < 3 ->
+           exists k nd, znth out' k = Ok nd /\ base <= k /\ In (ASend p0 q) (n_annots nd)).
+    Proof.
+      intros H E Hc HT (t1 & t2 & t3 & -> & Lt1) Hbase Hv Hp0.
+      assert (HR0 : RI out env ins out env).
+      { split; [exact E|]. split; [apply sendinv_init; lia|]. split; [apply ext_refl | apply mono_refl]. }
+      cbn [map reveal_output] in H.
+      apply bind_ok in H as ([out1 shares] & HS & H). unfold parties in HS. cbn [mapS] in HS.
+      apply bind_ok in HS as ([o1 i0] & E0 & HS). apply bind_ok in HS as ([o2' l1] & HS & Hr). inversion Hr; subst; clear Hr.
+      apply bind_ok in HS as ([o2 i1] & E1 & HS). apply bind_ok in HS as ([o3' l2] & HS & Hr). inversion Hr; subst; clear Hr.
+      apply bind_ok in HS as ([o3 i2] & E2 & HS). inversion HS; subst; clear HS.
+      destruct (RI_emit _ _ _ _ _ _ _ _ _ _ [T3 a b c] (L a) HR0 E0 eq_refl) as (HR1 & F0 & _ & _ & _ & (ts0 & ty0 & Hm0 & Hi0 & Hty0) & X0);
+        [cbn [mapM]; rewrite Hc; reflexivity | reflexivity | discriminate | intros q []|].
+      pose proof HR1 as (_ & _ & _ & M1).
+      destruct (RI_emit _ _ _ _ _ _ _ _ _ _ [T3 a b c] (L b) HR1 E1 eq_refl) as (HR2 & F1 & _ & _ & _ & (ts1 & ty1 & Hm1 & Hi1 & Hty1) & X1);
+        [cbn [mapM]; rewrite (M1 _ _ Hc); reflexivity | reflexivity | discriminate | intros q []|].
+      pose proof HR2 as (_ & _ & _ & M2).
+      destruct (RI_emit _ _ _ _ _ _ _ _ _ _ [T3 a b c] (L c) HR2 E2 eq_refl) as (HR3 & F2 & _ & _ & _ & (ts2 & ty2 & Hm2 & Hi2 & Hty2) & X2);
+        [cbn [mapM]; rewrite (M2 _ _ Hc); reflexivity | reflexivity | discriminate | intros q []|].
+      set (e3 := ((env ++ [L a]) ++ [L b]) ++ [L c]) in *.
+      (* the types of the three shares *)
+      cbn [mapM] in Hm0, Hm1, Hm2. rewrite HT in Hm0. cbn [bind] in Hm0. inversion Hm0; subst ts0.
+      rewrite (ext_out_ty _ _ _ _ X0 HT) in Hm1. cbn [bind] in Hm1. inversion Hm1; subst ts1.
+      rewrite (ext_out_ty _ _ _ _ (ext_trans _ _ _ X0 X1) HT) in Hm2. cbn [bind] in Hm2. inversion Hm2; subst ts2.
+      apply infer_tget3 in Hi0, Hi1, Hi2. cbn in Hi0, Hi1, Hi2. inversion Hi0; subst ty0. inversion Hi1; subst ty1. inversion Hi2; subst ty2.
+      assert (G0 : znth e3 i0 = Ok (L a)) by (unfold e3; auto using znth_app_l).
+      assert (G1 : znth e3 i1 = Ok (L b)) by (unfold e3; auto using znth_app_l).
+      assert (G2 : znth e3 i2 = Ok (L c)) by exact F2.
+      assert (Ty0 : out_ty out1 i0 = Ok t1) by exact (ext_out_ty _ _ _ _ (ext_trans _ _ _ X1 X2) Hty0).
+      (* the missing share *)
+      cbv zeta in H.
+      assert (Hprev : (p0 + 3 - 1) mod 3 = 0 \/ (p0 + 3 - 1) mod 3 = 1 \/ (p0 + 3 - 1) mod 3 = 2) by lia.
+      assert (Hne : (p0 + 3 - 1) mod 3 <> p0) by lia.
+      remember ((p0 + 3 - 1) mod 3) as prev eqn:Eprev.
+      apply bind_ok in H as (sp & Hsp & H). apply bind_ok in H as ([out2 ms] & HN & H).
+      apply bind_ok in H as (str & Hstr & H). apply bind_ok in H as (s0 & Hs0 & H). apply bind_ok in H as (t & Ht & H).
+      apply bind_ok in H as ([out3 rn] & HSum & H).
+      assert (Shares : exists w, znth e3 sp = Ok (L w) /\
+                 exists u0 u1 u2, str = [u0; u1; u2] /\
+                   forall e, mono e3 e -> znth e ms = Ok (L w) ->
+                             znth e u0 = Ok (L a) /\ znth e u1 = Ok (L b) /\ znth e u2 = Ok (L c)).
+      { destruct Hprev as [Hq | [Hq | Hq]]; rewrite Hq in *.
+        - change (znth [i0; i1; i2] 0) with (Ok (A:=Z) i0) in Hsp. inversion Hsp; subst sp. exists a. split; [exact G0|].
+          change (replace_nth_res [i0; i1; i2] 0 ms) with (Ok (A:=list Z) [ms; i1; i2]) in Hstr. inversion Hstr; subst str.
+          exists ms, i1, i2. split; [reflexivity|]. intros e Me Hms. auto.
+        - change (znth [i0; i1; i2] 1) with (Ok (A:=Z) i1) in Hsp. inversion Hsp; subst sp. exists b. split; [exact G1|].
+          change (replace_nth_res [i0; i1; i2] 1 ms) with (Ok (A:=list Z) [i0; ms; i2]) in Hstr. inversion Hstr; subst str.
+          exists i0, ms, i2. split; [reflexivity|]. intros e Me Hms. auto.
+        - change (znth [i0; i1; i2] 2) with (Ok (A:=Z) i2) in Hsp. inversion Hsp; subst sp. exists c. split; [exact G2|].
+          change (replace_nth_res [i0; i1; i2] 2 ms) with (Ok (A:=list Z) [i0; i1; ms]) in Hstr. inversion Hstr; subst str.
+          exists i0, i1, ms. split; [reflexivity|]. intros e Me Hms. auto. }
+      destruct Shares as (w & Gsp & u0 & u1 & u2 & -> & Hu).
+      destruct (RI_emit _ _ _ _ _ _ _ _ _ _ [L w] (L w) HR3 HN eq_refl) as (HR4 & F3 & _ & _ & _ & (ts3 & ty3 & Hm3 & Hi3 & Hty3) & X3);
+        [cbn [mapM]; rewrite Gsp; reflexivity | reflexivity | discriminate | |].
+      { intros q [Hq|[]]. inversion Hq. congruence. }
+      destruct (Hu (e3 ++ [L w]) (mono_snoc R _ _) F3) as (U0 & U1 & U2).
+      (* the type of the first share to reveal *)
+      change (znth [u0; u1; u2] 0) with (Ok (A:=Z) u0) in Hs0. inversion Hs0; subst s0.
+      assert (Lt : is_leaf t = true).
+      { assert (Hsp_ty : exists tsp, out_ty out1 sp = Ok tsp /\ (sp = i0 -> tsp = t1)).
+        { cbn [mapM] in Hm3. destruct (out_ty out1 sp) as [tsp| | |] eqn:Htsp; try discriminate. exists tsp. split; [reflexivity|].
+          intros ->. congruence. }
+        destruct Hsp_ty as (tsp & Htsp & Hsp0). cbn [mapM] in Hm3. rewrite Htsp in Hm3. cbn [bind] in Hm3. inversion Hm3; subst ts3.
+        apply infer_nop in Hi3. subst ty3.
+        destruct Hprev as [Hq | [Hq | Hq]]; rewrite Hq in *.
+        + change (znth [i0; i1; i2] 0) with (Ok (A:=Z) i0) in Hsp. inversion Hsp; subst sp.
+          change (replace_nth_res [i0; i1; i2] 0 ms) with (Ok (A:=list Z) [ms; i1; i2]) in Hstr. inversion Hstr; subst u0 u1 u2.
+          rewrite Hty3 in Ht. inversion Ht; subst t. rewrite (Hsp0 eq_refl). exact Lt1.
+        + change (replace_nth_res [i0; i1; i2] 1 ms) with (Ok (A:=list Z) [i0; ms; i2]) in Hstr. inversion Hstr; subst u0 u1 u2.
+          rewrite (ext_out_ty _ _ _ _ X3 Ty0) in Ht. inversion Ht; subst t. exact Lt1.
+        + change (replace_nth_res [i0; i1; i2] 2 ms) with (Ok (A:=list Z) [i0; i1; ms]) in Hstr. inversion Hstr; subst u0 u1 u2.
+          rewrite (ext_out_ty _ _ _ _ X3 Ty0) in Ht. inversion Ht; subst t. exact Lt1. }
+      rewrite (sum3_leaf _ _ _ _ _ Lt) in HSum. apply bind_ok in HSum as ([o4 r1'] & A0 & A1).
+      destruct (RI_emit _ _ _ _ _ _ _ _ _ _ [L a; L b] (L (radd a b)) HR4 A0 eq_refl) as (HR5 & F4 & _ & _ & _ & _ & X4);
+        [cbn [mapM]; rewrite U0, U1; reflexivity | reflexivity | discriminate | intros q []|].
+      destruct (RI_emit _ _ _ _ _ _ _ _ _ _ [L (radd a b); L c] (L (radd (radd a b) c)) HR5 A1 eq_refl) as (HR6 & F5 & _ & _ & _ & _ & X5);
+        [cbn [mapM]; rewrite F4, (znth_app_l _ _ _ _ U2); reflexivity | reflexivity | discriminate | intros q []|].
+      rewrite <- Hv in HR6, F5.
+      set (e6 := ((e3 ++ [L w]) ++ [L (radd a b)]) ++ [L v]) in *.
+      assert (LB : base <= zlen out3).
+      { rewrite Hbase. destruct (ext_trans _ _ _ X0 (ext_trans _ _ _ X1 (ext_trans _ _ _ X2 (ext_trans _ _ _ X3 (ext_trans _ _ _ X4 X5))))) as [Lx _]. exact Lx. }
+      destruct (1 <? zlen (IOParty p0 :: map IOParty rest)) eqn:Hlen.
+      - (* forwarding *)
+        unfold forward_revealed in H. cbn [fold_left] in H.
+        apply bind_ok in H as ([out5 sn2] & HF & HL).
+        cbn [bind] in HF.
+        destruct (if existsb (iostatus_eqb (IOParty ((p0 + 1) mod 3))) (IOParty p0 :: map IOParty rest)
+                  then emit ONOP [rn] [ASend p0 ((p0 + 1) mod 3)] out3 else Ok (out3, rn)) as [[out4 sn1]| | |] eqn:HF1; try discriminate.
+        cbn [bind] in HF.
+        change (IOParty p0 :: map IOParty rest) with (map IOParty (p0 :: rest)) in HF1, HF.
+        destruct (forward_step _ _ _ _ _ _ _ _ _ _ HR6 F5 HF1) as (e7 & HR7 & F7 & X7 & Ex1).
+        destruct (forward_step _ _ _ _ _ _ _ _ _ _ HR7 F7 HF) as (e8 & HR8 & F8 & X8 & Ex2).
+        destruct (RI_emit _ _ _ _ _ _ _ _ _ _ [L v] (L v) HR8 HL eq_refl) as (HR9 & F9 & _ & _ & _ & _ & X9);
+          [cbn [mapM]; rewrite F8; reflexivity | reflexivity | discriminate | intros q []|].
+        destruct HR9 as (Ev9 & SI9 & X09 & M9).
+        exists (e8 ++ [L v]). split; [exact Ev9|]. split; [exact M9|]. split; [exact X09|]. split; [exact F9|]. split; [exact SI9|].
+        intros q Hq Hqp Hqr.
+        assert (Hq12 : q = (p0 + 1) mod 3 \/ q = (p0 + 2) mod 3) by lia.
+        destruct Hq12 as [-> | ->].
+        + destruct (Ex1 (or_intror Hq)) as (k & nd & Hk & Hkb & Ha).
+          destruct (ext_annot _ _ _ _ _ (ext_trans _ _ _ X8 X9) Hk Ha) as (nd' & Hk' & Ha'). exists k, nd'. split; [exact Hk'|]. split; [lia | exact Ha'].
+        + destruct (Ex2 (or_intror Hq)) as (k & nd & Hk & Hkb & Ha).
+          destruct (ext_annot _ _ _ _ _ X9 Hk Ha) as (nd' & Hk' & Ha'). exists k, nd'. split; [exact Hk'|]. split; [|exact Ha'].
+          destruct X7 as [L7 _]. lia.
+      - (* a single output party *)
+        inversion H; subst out' id; clear H.
+        destruct HR6 as (Ev6 & SI6 & X06 & M6).
+        exists e6. split; [exact Ev6|]. split; [exact M6|]. split; [exact X06|]. split; [exact F5|]. split; [exact SI6|].
+        intros q Hq. exfalso. destruct rest; [destruct Hq|]. unfold zlen in Hlen. cbn [length map] in Hlen. lia.
+    Qed.
+  End Reveal.
 End CtxProofs.
